@@ -144,28 +144,27 @@ Theorem c18_learned_address_confirmed : forall H p off c hl c' hl',
 Proof. intros H p off c hl c' hl' _. exact (learned_address_confirmed H p off c hl c' hl'). Qed.
 Print Assumptions c18_learned_address_confirmed.
 
-(* sentence 2a, as stated: FALSE for the code.  verifyRawCerts accepts a
-   certificate with an RSA public key when its signature algorithm is RSA-PSS
-   (or any non-RSA issuer signature): witness below, reproduced on the real
-   code by the harness (known_findings/C18.json) *)
-Theorem c18_verify_sound_refuted : exists c hashes,
+(* sentence 2a, as stated, is FALSE for the pinned tree (verifyRsaRule = 0,
+   re-read from crypto.go on every run): verifyRawCerts accepts a certificate
+   with an RSA public key when its signature algorithm is RSA-PSS (or any
+   non-RSA issuer signature).  Witness below, reproduced on the real code by
+   the harness (known_findings/C18.json). *)
+Theorem c18_verify_sound_refuted : pRsaRule cparams = 0 -> exists c hashes,
   verify_raw_certs cparams [c] hashes = VOk /\ is_rsa c = true /\
   monitor_verify [c] hashes (z_of_vres (verify_raw_certs cparams [c] hashes)) <> [].
-Proof.
-  exists (mkX 1 true true 2 (-3600 * SEC) (86400 * SEC)), [(SHA2_256, 1)].
-  split; [vm_compute; reflexivity|]. split; [reflexivity|]. vm_compute. discriminate.
-Qed.
+Proof. intros Hr. apply verify_refuted_gen; [exact Hr | apply c18_consts_wf]. Qed.
 Print Assumptions c18_verify_sound_refuted.
 
-(* sentence 2a under the hypothesis the proof forces ([rsa_recognised]: the
-   signature is not RSA-PSS and an RSA public key comes with a PKCS#1 v1.5
-   signature): an accepted chain of the stated quantifier (length 0 or 1)
+(* sentence 2a under the hypothesis the proof forces ([rsa_recognised]: with
+   the pinned tree's RSA test, the signature is not RSA-PSS and an RSA public
+   key comes with a PKCS#1 v1.5 signature; with the repaired test — verifyRsaRule
+   = 1 — nothing): an accepted chain of the stated quantifier (length 0 or 1)
    consists of one parseable certificate whose SHA-256, under the sha2-256
    code, is in the dialed address, not RSA, valid for at most 14 days, and
    NotBefore <= now <= NotAfter — i.e. the monitor run on the implementation
    accepts whatever the model answers *)
 Theorem c18_verify_sound_partial : forall chain hashes,
-  (length chain <= 1)%nat -> Forall rsa_recognised chain ->
+  (length chain <= 1)%nat -> Forall (rsa_recognised cparams) chain ->
   monitor_verify chain hashes (z_of_vres (verify_raw_certs cparams chain hashes)) = [] /\
   (verify_raw_certs cparams chain hashes = VOk ->
    exists c, chain = [c] /\ In (SHA2_256, x_hash c) hashes /\ x_parse c = true /\ is_rsa c = false /\
@@ -179,14 +178,22 @@ Proof.
     + assert (pre = [] /\ leaf = c) as (-> & ->).
       { destruct pre as [|a [|b r]]; cbn in E; [inversion E; auto | discriminate | discriminate]. }
       exists c. split; [reflexivity|]. split; [apply mh_mem_In; exact Ha|]. split; [exact Hp|].
-      inversion Hr as [|? ? (Hpss & Hkey) _]; subst. split.
-      * unfold is_rsa. destruct (x_pubrsa c) eqn:Ek; [exfalso; apply Hs, Hkey; reflexivity|].
-        destruct (Z.eqb_spec (x_sig c) 1); [contradiction|]. destruct (Z.eqb_spec (x_sig c) 2); [contradiction|].
-        reflexivity.
+      inversion Hr as [|? ? Hrec _]; subst. split.
+      * exact (rsa_test_false cparams c Hrec Hs).
       * rewrite <- HM. split; assumption.
     + cbn in Hl. lia.
 Qed.
 Print Assumptions c18_verify_sound_partial.
+
+(* sentence 2a in full once the verifier's RSA test is the complete one *)
+Theorem c18_verify_sound_if_repaired : pRsaRule cparams <> 0 -> forall chain hashes,
+  (length chain <= 1)%nat ->
+  monitor_verify chain hashes (z_of_vres (verify_raw_certs cparams chain hashes)) = [].
+Proof.
+  intros Hr chain hashes Hl.
+  apply (proj1 (c18_verify_sound_partial chain hashes Hl (rsa_rule1_recognised cparams chain Hr))).
+Qed.
+Print Assumptions c18_verify_sound_if_repaired.
 
 (* sentence 2b: the dialer completes the connection only if the certificate
    check passed AND the server's early data decoded AND every hash of the
@@ -195,7 +202,7 @@ Print Assumptions c18_verify_sound_partial.
 Theorem c18_dialer_requires_confirmation : forall chain addr dec srv,
   (dial cparams chain addr dec srv = 0 ->
    verify_raw_certs cparams chain addr = VOk /\ dec = true /\ forall h, In h addr -> In h srv) /\
-  ((length chain <= 1)%nat -> Forall rsa_recognised chain ->
+  ((length chain <= 1)%nat -> Forall (rsa_recognised cparams) chain ->
    monitor_dial chain addr dec srv (dial cparams chain addr dec srv) = []).
 Proof.
   intros chain addr dec srv. split.
